@@ -808,14 +808,22 @@ impl MemoryLoc {
                     if self.offset != 0 {
                         addr = builder.ins().iadd_imm(addr, self.offset as i64);
                     }
+                    // only the bytes of the value itself are copied. copying `stride` bytes would
+                    // also write the tail padding, which belongs to whatever comes after a field
+                    // or an element of this type.
+                    // (cranelift asserts that the alignment divides the number of bytes)
+                    let size = ty.size() as u64;
+                    let mut align = ty.align() as u64;
+                    while size % align != 0 {
+                        align /= 2;
+                    }
                     builder.emit_small_memory_copy(
                         module.target_config(),
                         addr,
                         val,
-                        // this has to be stride for some reason, it can't be size
-                        ty.stride() as u64,
-                        ty.align() as u8,
-                        ty.align() as u8,
+                        size,
+                        align as u8,
+                        align as u8,
                         true,
                         MemFlags::trusted(),
                     )
@@ -826,7 +834,7 @@ impl MemoryLoc {
                     let mut off = 0;
                     macro_rules! mem_cpy_loop {
                         ($width:expr) => {
-                            while (off + $width) <= (ty.stride() as i32 / $width) * $width {
+                            while (off + $width) <= (ty.size() as i32 / $width) * $width {
                                 let bytes = builder.ins().load(
                                     cranelift::codegen::ir::Type::int_with_byte_size($width)
                                         .unwrap(),
@@ -887,10 +895,11 @@ impl MemoryLoc {
                 let mut off = 0;
                 macro_rules! mem_cpy_loop {
                     ($width:expr) => {
-                        while (off + $width) <= (ty.stride() as i32 / $width) * $width {
+                        while (off + $width) <= (ty.size() as i32 / $width) * $width {
+                            // `$width` copies of the byte
                             let val = builder.ins().iconst(
-                                cranelift::codegen::ir::Type::int_with_byte_size(8).unwrap(),
-                                val as i64,
+                                cranelift::codegen::ir::Type::int_with_byte_size($width).unwrap(),
+                                (u64::from_ne_bytes([val; 8]) >> (64 - 8 * $width)) as i64,
                             );
                             builder
                                 .ins()
@@ -1008,7 +1017,8 @@ fn cast_into_memory(
 
         memory.write_all(val, *sub_ty, module, builder);
 
-        let discrim = builder.ins().iconst(ptr_ty, *discriminant as i64);
+        // the discriminant is a single byte which sits right after the payload
+        let discrim = builder.ins().iconst(types::I8, *discriminant as i64);
         memory.write_val(builder, discrim, enum_layout.discriminant_offset() as i32);
 
         return Some(memory.into_value(builder, ptr_ty));
